@@ -811,8 +811,16 @@ fn reftest_eval_up_to(
 /// we make the comment longer on every run of the test suite.
 fn remove_testing_footer(src: &str) -> String {
     let mut new_src = String::with_capacity(src.len());
-    for line in src.lines() {
-        if line.starts_with("// args: ") {
+    for (i, line) in src.lines().enumerate() {
+        // A testing footer runs to the end of the file and consists
+        // of comments only. A `// args: ` comment that is followed by
+        // code is an ordinary comment, and the code must be kept.
+        if line.starts_with("// args: ")
+            && src
+                .lines()
+                .skip(i)
+                .all(|l| l.trim().is_empty() || l.starts_with("//"))
+        {
             break;
         }
         new_src.push_str(line);
